@@ -6,8 +6,12 @@
      the order of self._jobs handed to the backend, is a topological order of the dependency relation; BatchException is raised
      only when some dependency does not come earlier.  (A relation with a cycle has no such numbering - paper lemma - so cyclic
      pipelines are rejected before `_backend._async_run` is reached, which is also an AST order obligation.)
- (B) Batch._async_run.schedule_job (the DFS): what it appends and marks - the preconditions of (A): list distinct, dependency
-     closed - by a recursive contract checked on its body.
+ (B) Batch._async_run.schedule_job (the DFS) under a recursive contract checked on its body: the list holds no job twice, the
+     dependencies of listed jobs were seen, every job seen during a call is listed when it returns, and every dependency of a
+     listed job comes earlier in the list or transitively depends on that job (closes a cycle).  Lemma (z3): when (A) rejects,
+     some job transitively depends on itself - an acyclic pipeline is never rejected.
+ (D2) PythonJob.call.handle_arg under the same contract as (D); handle_args reaches it for every resource in every container
+     kind that _compile.preserialize descends into, for positional and keyword arguments (AST obligations).
  (C) LocalBackend._async_run: the job loop is SLICED mechanically on every run to the statements that decide which jobs are
      skipped (everything that only builds shell text is dropped; the dropped statements are listed in evidence); on the slice:
      loop invariant "a job is marked cancelled iff it is not always-run and a parent earlier in the order failed or was skipped";
@@ -96,6 +100,110 @@ def numbering():
 
 
 
+# ---- (B) the DFS schedule_job ------------------------------------------------------------------------------------------------------
+
+# state of the DFS: seen (set), ordered_jobs (list), and the ghost map POSM: job in the list -> its position (so that "d comes
+# before x" is POSM[d] < POSM[x] without an existential).  `reach(a, b)`: a depends on b through one or more dependency edges.
+DFS_INV = [
+    ('listed-jobs-are-exactly-the-keys-of-the-position-map', 'forall(lambda i: implies(0 <= i < len({ord}), {ord}[i] in {pos} and {pos}[{ord}[i]] == i)) and forall("U", lambda x: implies(x in {pos}, 0 <= {pos}[x] < len({ord}) and {ord}[{pos}[x]] == x))'),
+    ('listed-jobs-were-seen', 'forall("U", lambda x: implies(x in {pos}, x in {seen}))'),
+    ('dependencies-of-listed-jobs-were-seen', 'forall("U", lambda x: forall(lambda q: implies(x in {pos} and 0 <= q < len(x._dependencies), x._dependencies[q] in {seen})))'),
+    ('a-dependency-of-a-listed-job-comes-earlier-or-closes-a-cycle', 'forall("U", lambda x: forall(lambda q: implies(x in {pos} and 0 <= q < len(x._dependencies), (x._dependencies[q] in {pos} and {pos}[x._dependencies[q]] < {pos}[x]) or reach(x._dependencies[q], x))))'),
+]
+DFS_PRE = DFS_INV + [('jobs-in-progress-depend-on-the-job-being-scheduled', 'forall("U", lambda x: implies(x in {seen} and not (x in {pos}), reach(x, {j})))')]
+DFS_POST = DFS_INV + [
+    ('the-job-is-seen', '{j} in {seen}'),
+    ('nothing-is-forgotten', 'forall("U", lambda x: implies(x in {seen0}, x in {seen})) and forall("U", lambda x: implies(x in {pos0}, x in {pos} and {pos}[x] == {pos0}[x])) and len({ord}) >= len({ord0}) and forall(lambda i: implies(0 <= i < len({ord0}), {ord}[i] == {ord0}[i]))'),
+    ('every-job-seen-during-the-call-is-listed-when-it-returns', 'forall("U", lambda x: implies(x in {seen} and not (x in {seen0}), x in {pos}))'),
+    ('only-newly-seen-jobs-are-listed', 'forall("U", lambda x: implies(x in {pos} and not (x in {pos0}), not (x in {seen0})))'),
+]
+REACH_AXIOMS = [
+    'forall("U", lambda x: forall(lambda q: implies(0 <= q < len(x._dependencies), reach(x, x._dependencies[q]))))',
+    'forall("U", lambda a: forall("U", lambda b: forall(lambda q: implies(reach(a, b) and 0 <= q < len(b._dependencies), reach(a, b._dependencies[q])))))',
+]
+
+
+def dfs_contract():
+    """Batch._async_run.schedule_job, the recursive depth-first walk, against a recursive contract (the recursive call is used
+    through the same contract: partial correctness by induction on the recursion).  What it establishes for the numbering (A):
+    the list holds no job twice and the dependencies of its members were all seen; and every dependency of a listed job either
+    comes earlier in the list or transitively depends on that job - i.e. closes a cycle.  With (A): BatchException is raised only
+    for pipelines that really contain a cycle (lemma below), so an acyclic pipeline is never rejected."""
+    names = dict(seen='seen', ord='ordered_jobs', pos='POSM', j='j', seen0='seen0', ord0='ord0', pos0='POSM0')
+
+    def fmt(e, **over):
+        d = dict(names)
+        d.update(over)
+        return e.format(**d)
+
+    def setup(eng, st):
+        st.env['seen0'], st.env['ord0'], st.env['POSM0'] = st.env['seen'], st.env['ordered_jobs'], st.env['POSM']
+
+    def recursive_call(eng, st, args, kw, node):
+        if len(args) != 1 or kw:
+            raise core.Undecided('schedule_job called with other than one positional argument')
+        s1 = st.fork()
+        s1.env['j'] = args[0]
+        for name, e in DFS_PRE:
+            eng.oblige(s1, 'recursive-call/pre/' + name, eng.ev_bool_str(fmt(e), s1), clause=e)
+        st.env['n_rec'] = st.env['n_rec'] + 1
+        # the callee changes seen / ordered_jobs / POSM as its postcondition says
+        new_seen = pyvc.fresh_value(pyvc.parse_type('Map[U, bool]'), 'seen_after')
+        new_ord = pyvc.fresh_value(('list', 'U'), 'ordered_after')
+        new_pos = pyvc.fresh_value(pyvc.parse_type('Map[U, int]'), 'posm_after')
+        for v in (new_seen, new_ord, new_pos):
+            for w in pyvc.wf_constraints(v):
+                st.assume(w)
+        s2 = st.fork()
+        s2.env.update(j=args[0], c_seen0=st.env['seen'], c_ord0=st.env['ordered_jobs'], c_pos0=st.env['POSM'], c_seen=new_seen, c_ord=new_ord, c_pos=new_pos)
+        for name, e in DFS_POST:
+            st.assume(eng.ev_bool_str(fmt(e, seen='c_seen', ord='c_ord', pos='c_pos', seen0='c_seen0', ord0='c_ord0', pos0='c_pos0'), s2))
+        st.env['seen'], st.env['ordered_jobs'], st.env['POSM'] = new_seen, new_ord, new_pos
+        return None
+
+    return Contract(
+        path=BATCH, qualname='Batch._async_run.schedule_job', types={'j': 'U', 'p': 'U', '._dependencies': 'List[U]'},
+        extra_inputs={'seen': 'Map[U, bool]', 'ordered_jobs': 'List[U]', 'POSM': 'Map[U, int]'}, setup=setup,
+        spec_funcs={'reach': (['U', 'U'], 'bool')}, axioms=REACH_AXIOMS,
+        requires=[fmt(e) for _, e in DFS_PRE],
+        calls={'schedule_job': recursive_call},
+        ghost_init={'n_rec': '0'},
+        ghosts=[Ghost('ordered_jobs.append(j)', 'POSM = store(POSM, j, len(ordered_jobs) - 1)', where='after')],
+        loops={0: LoopSpec(index='di', invariants=[(n, fmt(e)) for n, e in DFS_INV] + [
+            ('the-job-itself-is-seen-but-not-listed-yet', 'j in seen and not (j in POSM)'),
+            ('dependencies-so-far-were-seen', 'forall(lambda q: implies(0 <= q < di, j._dependencies[q] in seen))'),
+            ('dependencies-so-far-are-listed-or-in-progress', 'forall(lambda q: implies(0 <= q < di, j._dependencies[q] in POSM or reach(j._dependencies[q], j)))'),
+            ('jobs-in-progress-are-those-of-the-entry-plus-this-job', 'forall("U", lambda x: implies(x in seen and not (x in POSM), x == j or (x in seen0 and not (x in POSM0))))'),
+            ('so-far-nothing-is-forgotten', fmt(DFS_POST[len(DFS_INV) + 1][1])),
+            ('so-far-every-other-job-seen-since-entry-is-listed', 'forall("U", lambda x: implies(x in seen and not (x in seen0) and x != j, x in POSM))'),
+            ('so-far-only-newly-seen-jobs-are-listed', fmt(DFS_POST[len(DFS_INV) + 3][1])),
+        ], modifies=['seen', 'ordered_jobs', 'POSM', 'n_rec', 'p'])},
+        ensures=[(n, fmt(e)) for n, e in DFS_POST],
+        raises={},
+        canaries=[('never-lists-anything', 'len(ordered_jobs) == len(ord0)'), ('never-recurses', 'n_rec == 0')],
+    )
+
+
+def dfs_lemma(ctx):
+    """from the DFS invariant to the property: if the numbering loop (A) finds a dependency that does not come earlier, the pipeline
+    has a cycle (some job transitively depends on itself); so acyclic pipelines are never rejected.  Pure z3 lemma over the
+    invariant clause and the axioms of `reach`."""
+    Us = pyvc.U
+    reach = z3.Function('reach', Us, Us, z3.BoolSort())
+    dep = z3.Function('dep', Us, Us, z3.BoolSort())
+    listed = z3.Function('listed', Us, z3.BoolSort())
+    pos = z3.Function('posm', Us, z3.IntSort())
+    x, d, a, b, c = z3.Consts('x d a b c', Us)
+    hyp = [
+        z3.ForAll([a, b], z3.Implies(dep(a, b), reach(a, b))),
+        z3.ForAll([a, b, c], z3.Implies(z3.And(reach(a, b), dep(b, c)), reach(a, c))),
+        z3.ForAll([a, b], z3.Implies(z3.And(listed(a), dep(a, b)), z3.Or(z3.And(listed(b), pos(b) < pos(a)), reach(b, a)))),  # DFS invariant clause 4
+        listed(x), dep(x, d), z3.Not(z3.And(listed(d), pos(d) < pos(x))),  # what makes (A) raise BatchException
+    ]
+    ctx.add(core.valid('C17/dfs-lemma/a-rejected-pipeline-contains-a-cycle', hyp, reach(d, d), kind='lemma'))
+    ctx.add(core.satisfiable('C17/dfs-lemma/vacuity/hypotheses-satisfiable', hyp, kind='vacuity'))
+
+
 # ---- (D) resource-induced dependencies ---------------------------------------------------------------------------------------------
 
 
@@ -147,6 +255,86 @@ def interpolate_handler():
         raises={'BatchException': True, 'AssertionError': True},
         canaries=[('never-another-job', 'not %s' % OTHER)],
     )
+
+
+# ---- (D2) resources handed to a PythonJob ------------------------------------------------------------------------------------------
+
+
+def python_job_handle_arg():
+    """PythonJob.call.handle_arg: a resource produced by another job and passed to a python job makes that job a dependency and is
+    registered as input of this job and output of the producer - the python-job counterpart of (D)"""
+    THIS = z3.Const('this_job', U)
+    NOTHING = z3.Const('nothing', U)
+
+    def source(eng, st, args, kw, node):
+        s = z3.Const('the_source_job', U)
+        raise Fork(node, [('produced-by-a-job', z3.And(s != z3.Const('const_None', U), s != NOTHING), 'value', s, lambda x: x.env.__setitem__('SOURCE', s)), ('an-input-file', None, 'value', None, None)])
+
+    def rec(name):
+        def model(eng, st, args, kw, node):
+            st.env[name] = to_z3(args[-1], 'U')
+            st.env['n_' + name] = st.env['n_' + name] + 1
+            return None
+        return model
+
+    def out_model(eng, st, args, kw, node):
+        eng.oblige(st, 'output-registered-on-the-producing-job', st.env['SOURCE'] != NOTHING)
+        st.env['OUTPUT'] = to_z3(args[-1], 'U')
+        return None
+
+    OTHER = '(SOURCE != NOTHING and SOURCE != self)'
+    return Contract(
+        path=JOB, qualname='PythonJob.call.handle_arg', types={'r': 'U', '._valid': 'Array[U, bool]', '._resources_inverse': 'Array[U, U]'},
+        extra_inputs={'self': 'U'}, consts={'NOTHING': NOTHING}, setup=lambda eng, st: st.env.__setitem__('self', THIS),
+        calls={'r.source': source, 'self._add_inputs': rec('INPUT'), 'self._dependencies.add': rec('DEP'), 'source._add_internal_outputs': out_model, '_add_resource_to_set': lambda eng, st, args, kw, node: None,
+               'self._mentioned.add': rec('MENTIONED')},
+        ghost_init={'SOURCE': 'NOTHING', 'INPUT': 'NOTHING', 'n_INPUT': '0', 'DEP': 'NOTHING', 'n_DEP': '0', 'OUTPUT': 'NOTHING', 'MENTIONED': 'NOTHING', 'n_MENTIONED': '0'},
+        ensures=[
+            ('a-resource-of-another-job-makes-that-job-a-dependency', 'implies(%s, n_DEP == 1 and DEP == SOURCE)' % OTHER),
+            ('and-is-registered-as-this-jobs-input-and-the-producers-output', 'implies(%s, n_INPUT == 1 and INPUT == r and OUTPUT == r)' % OTHER),
+            ('own-resources-and-input-files-add-no-dependency', 'implies(not %s, n_DEP == 0)' % OTHER),
+        ],
+        raises={'BatchException': True},
+        canaries=[('never-another-job', 'not %s' % OTHER)],
+    )
+
+
+def python_job_traversal(ctx):
+    """PythonJob.call reaches handle_arg for every resource the job will later be given: handle_args sends a Resource to
+    handle_arg and descends into every container kind that _compile.preserialize descends into (a resource inside a container
+    the walk skips would be turned into a path at run time without ever having become a dependency), and it is applied to both
+    the positional and the keyword arguments.  Decided on the AST."""
+    tree = pyast.parse(core.read_repo(JOB))
+    call = pyvc.find_function(tree, 'PythonJob.call')
+    ha = pyvc.find_function(tree, 'PythonJob.call.handle_args')
+    pre = pyvc.find_function(tree, 'PythonJob._compile.preserialize')
+    param = ha.args.args[0].arg
+
+    def container_kinds(fn, arg, recurse_name):
+        """container classes whose members `fn` visits recursively, from its `isinstance(arg, K)` cascade"""
+        kinds = {}
+        for n in pyast.walk(fn):
+            if isinstance(n, pyast.If) and isinstance(n.test, pyast.Call) and pyast.unparse(n.test.func) == 'isinstance' and pyast.unparse(n.test.args[0]) == arg:
+                ks = n.test.args[1]
+                names = [pyast.unparse(e) for e in ks.elts] if isinstance(ks, pyast.Tuple) else [pyast.unparse(ks)]
+                body = pyast.unparse(pyast.Module(body=n.body, type_ignores=[]))
+                for k in names:
+                    kinds[k] = body
+        return kinds
+
+    hk = container_kinds(ha, param, 'handle_args')
+    pk = container_kinds(pre, pre.args.args[0].arg, 'preserialize')
+    descended_by_compile = {k for k, b in pk.items() if 'preserialize(' in b}
+    walks = {}
+    for k, b in hk.items():
+        walks[k] = ('handle_args(' in b) and (('.values()' in b) if k == 'dict' else ('for ' in b))
+    ok_res = 'Resource' in hk and hk['Resource'].strip() == 'handle_arg(%s)' % param
+    ok_walk = all(walks.get(k) for k in descended_by_compile)
+    ctx.add(core.decided('C17/PythonJob.call.handle_args/a-resource-argument-is-handed-to-handle_arg', ok_res, repr(hk.get('Resource')), kind='scan'))
+    ctx.add(core.decided('C17/PythonJob.call.handle_args/descends-into-every-container-kind-that-compile-descends-into', bool(descended_by_compile) and ok_walk, 'compile descends into %r; handle_args walks %r' % (sorted(descended_by_compile), walks), kind='scan'))
+    applied = [pyast.unparse(n) for n in call.body if isinstance(n, pyast.Expr) and isinstance(n.value, pyast.Call) and pyast.unparse(n.value.func) == 'handle_args']
+    ctx.add(core.decided('C17/PythonJob.call/both-positional-and-keyword-arguments-are-walked', sorted(applied) == ['handle_args(args)', 'handle_args(kwargs)'], repr(applied), kind='scan'))
+    ctx.under_contract(JOB, 'PythonJob.call.handle_args (traversal, AST)')
 
 
 # ---- (C) LocalBackend: which jobs are skipped --------------------------------------------------------------------------------------
@@ -317,9 +505,17 @@ def build(ctx):
     eng = pyvc.Engine(ctx, numbering())
     eng.run()
     _strict(ctx, eng, 'numbering')
+    eng = pyvc.Engine(ctx, dfs_contract())
+    eng.run()
+    _strict(ctx, eng, 'schedule_job')
+    dfs_lemma(ctx)
     eng = pyvc.Engine(ctx, interpolate_handler())
     eng.run()
     _strict(ctx, eng, 'interpolate-handler')
+    python_job_traversal(ctx)
+    eng = pyvc.Engine(ctx, python_job_handle_arg())
+    eng.run()
+    _strict(ctx, eng, 'python-job-handle-arg')
     sliced, dropped = _slice_local_backend()
     ctx.extra['local_backend_slice_dropped_statements'] = dropped
     ctx.add(core.decided('C17/LocalBackend._async_run[slice]/keeps-the-skip-logic', 'cancel_child_jobs(job)' in sliced and 'run_code' in sliced, '%d statements dropped' % len(dropped)))
@@ -333,11 +529,12 @@ def build(ctx):
     _ast_obligations(ctx)
     script = open(os.path.join(os.path.dirname(__file__), 'native', 'c17_replay.py')).read()
     ctx.witness_search = lambda: core.run_native(script, {'seed': ctx.seed, 'rounds': 60}, timeout=400)
-    ctx.assume('(A) preconditions: ordered_jobs holds no job twice and contains the dependencies of its members - what the DFS schedule_job builds (seen-guard, recursion over _dependencies); the DFS itself is not under contract, its two properties are assumed; a cyclic relation admits no topological numbering (paper lemma)')
+    ctx.assume('(B) the recursive call of schedule_job is used through the contract being proved (partial correctness by induction on the recursion; termination: every call either returns at once or adds a job to `seen`, which is bounded by the jobs reachable - not mechanised); the top-level loop calls it with no job in progress (empty seen / list at the start, in-progress set unchanged by each call: postcondition); `_dependencies` is read as a list (any iteration order of the set)')
+    ctx.assume('(A)+(B): BatchException is raised by (A) only if a dependency does not come earlier; by the DFS invariant that dependency then transitively depends on the job (dfs-lemma), i.e. the pipeline has a cycle; conversely a cyclic relation admits no topological numbering (paper lemma), so cyclic pipelines are rejected')
     ctx.assume('(C) the LocalBackend job loop is verified on a mechanical SLICE (dropped statements listed in evidence.local_backend_slice_dropped_statements): dropped statements neither assign tracked names nor call cancel_child_jobs (checked), may raise (then the whole run fails) and are assumed not to change _dependencies / _always_run of any job')
     ctx.assume('(C) run_code(code) is an oracle returning None or the error of the job; child_jobs is the inverse of _dependencies over the batch\'s jobs (AST obligation on the two construction loops); jobs arrive in the topological order established by (A); sets are modelled as membership predicates')
     ctx.assume('(D) match objects, the resource map and Resource.source() are oracles; only the handler closure of _interpolate_command is under contract (re.sub calls it once per reference)')
-    ctx.undecided('that a DAG is never falsely rejected and every job is numbered (needs the post-order property of the recursive DFS)')
+    ctx.undecided('that every job of the batch ends up in the list exactly once is shown as: listed jobs are distinct (B), every job is passed to schedule_job (AST) and is then seen and listed (B post); `assert len(seen) == len(self._jobs)` additionally requires that no dependency lies outside the batch - not decided')
     ctx.undecided('ServiceBackend submission order and the service-side dependency handling (C05 decides the server side); LocalBackend shell text')
 
 
